@@ -4,7 +4,7 @@ from __future__ import annotations
 
 import ast
 
-from ..core import AnalysisError, Check, Scope, is_self_attr, norm, strip_docstring, walk_no_nested
+from ..core import expand_locals, single_defs, AnalysisError, Check, Scope, is_self_attr, norm, strip_docstring, walk_no_nested
 from ..deps import DepInterp, DepSt
 from ..variants import Variant
 
@@ -442,6 +442,10 @@ class C01(Check):
         q = "Model._create_cache"
         body = strip_docstring(cc.body)
 
+        # locals that denote an inner table of one of the stoichiometry tables (`d = stoich_by_compounds.setdefault(cpd, {})`)
+        inner_tables = tuple(sorted({x.targets[0].id for x in ast.walk(cc) if isinstance(x, ast.Assign) and isinstance(x.targets[0], ast.Name)
+                                     and "stoich" in norm(x.value) and (".setdefault(" in norm(x.value) or isinstance(x.value, ast.Subscript))})) or ("d_static",)
+
         class StoreInterp(PathInterp):
             loop_unroll = 1
 
@@ -450,15 +454,37 @@ class C01(Check):
                 for x in ast.walk(stmt):
                     if isinstance(x, ast.Assign) and isinstance(x.targets[0], ast.Subscript):
                         base = norm(x.targets[0].value)
-                        if "stoich" in base or base.startswith("d_static"):
+                        if "stoich" in base or base in inner_tables:
                             stored = True
                 if isinstance(stmt, ast.Raise):
                     yield ("raise", stored, None)
                     return
                 yield ("normal", stored)
 
-        rx = [l for l in body if isinstance(l, ast.For) and norm(l.iter) == "self._reactions.items()"]
-        sr = [l for l in body if isinstance(l, ast.For) and norm(l.iter) == "self._surrogates.values()"]
+        defs = single_defs(cc)
+
+        def sources(it_: ast.AST) -> set[str]:
+            """Which whole containers an iteration source ranges over (unfiltered)."""
+            e = expand_locals(it_, defs)
+            t = norm(e)
+            if t == "self._reactions.items()":
+                return {"reactions"}
+            if t == "self._surrogates.values()":
+                return {"surrogates"}
+            out: set[str] = set()
+            if isinstance(e, ast.Call) and norm(e.func) in ("it.chain", "itertools.chain", "chain"):
+                for a_ in e.args:
+                    g = a_.value if isinstance(a_, ast.Starred) else a_
+                    if isinstance(g, (ast.GeneratorExp, ast.ListComp)) and len(g.generators) == 1 and not g.generators[0].ifs:
+                        src = norm(g.generators[0].iter)
+                        if src == "self._reactions.items()" and ".stoichiometry" in norm(g.elt):
+                            out.add("reactions")
+                        elif src == "self._surrogates.values()" and ".stoichiometries.items()" in norm(g.elt):
+                            out.add("surrogates")
+            return out
+
+        rx = [l for l in body if isinstance(l, ast.For) and "reactions" in sources(l.iter)]
+        sr = [l for l in body if isinstance(l, ast.For) and "surrogates" in sources(l.iter)]
         for name, loops in (("reactions", rx), ("surrogates", sr)):
             if not loops:
                 self.violated("A4", MOD, q, f"table-complete-{name}", cc, f"no loop over the whole container of {name} fills the stoichiometry tables",
@@ -467,18 +493,21 @@ class C01(Check):
             outer = loops[0]
             # innermost loop over the (variable, coefficient) entries
             inner = outer
+            parent = outer
             while True:
                 nxt = [x for x in inner.body if isinstance(x, ast.For)]
                 if not nxt:
                     break
+                parent = inner
                 inner = nxt[0]
+            flux_key = norm(parent.target.elts[0]) if isinstance(parent.target, ast.Tuple) else "?"
             levels_ok = not any(isinstance(x, (ast.If, ast.Continue, ast.Break)) for l in _loop_chain(outer, inner)[:-1] for x in l.body if not isinstance(x, ast.For))
             si = StoreInterp()
             out = si.block(inner.body, [False])
             ends = out.normal + out.continues + out.breaks
             skipped = [e for e in ends if not e] or out.breaks
-            keyed = all(norm(x.targets[0].slice) in ("rxn_name",) for x in ast.walk(inner) if isinstance(x, ast.Assign) and isinstance(x.targets[0], ast.Subscript)
-                        and ("stoich" in norm(x.targets[0].value) or norm(x.targets[0].value).startswith("d_static")))
+            keyed = all(norm(x.targets[0].slice) in (flux_key,) for x in ast.walk(inner) if isinstance(x, ast.Assign) and isinstance(x.targets[0], ast.Subscript)
+                        and ("stoich" in norm(x.targets[0].value) or norm(x.targets[0].value) in inner_tables))
             if not skipped and levels_ok and keyed and ends:
                 self.holds("A4", MOD, q, f"table-complete-{name}", outer, f"every entry of every {name[:-1]} is stored under [variable][flux] on all {len(ends)} path(s) of the loop body")
             else:
